@@ -216,15 +216,24 @@ TOffsetFetchReply ==
 
 \* first position of a newly owned partition: the committed offset the coordinator reported, else earliest
 TResetTo ==
-  /\ IsEvent("ResetTo")
+  /\ IsEvent("ResetTo") /\ ~Ev.dropped
   /\ LET c == Ev.c
          tp == Ev.tp
      IN /\ tp \in adopted[c].tps
+        \* C04/C13: the first position comes from an answer of the coordinator that COVERED this partition
+        \* (asked since the assignment was adopted); "no committed offset" is never assumed without asking
+        /\ fetched[c][tp] # -2
         /\ IF fetched[c][tp] >= 0 THEN Ev.off = fetched[c][tp] ELSE Ev.off = 0
         /\ start' = [start EXCEPT ![c][tp] = IF pos[c][tp] = -1 THEN Ev.off ELSE @]
         /\ dl' = [dl EXCEPT ![c][tp] = IF pos[c][tp] = -1 THEN {} ELSE @]
         /\ pos' = [pos EXCEPT ![c][tp] = Ev.off]
   /\ Keep(<<lagUntil, subChg, mid, cgen, expectSync, distd, adopted, gateUp, inRevoke, needRevoke, subs, alive, ever, fetched, committed>>)
+
+\* a lookup result written into the state object of an assignment that has been replaced: no effect
+TResetDropped ==
+  /\ IsEvent("ResetTo") /\ Ev.dropped
+  /\ Keep(<<lagUntil, subChg, mid, cgen, expectSync, distd, adopted, gateUp, inRevoke, needRevoke, subs, alive, start, pos, dl,
+            ever, fetched, committed>>)
 
 \* records handed to the application
 TTake ==
@@ -309,14 +318,14 @@ TEnd ==
 \* C04 at least once: every record of every owned partition was delivered by some incarnation
 TEndDelivery ==
   /\ IsEvent("EndDelivery")
-  /\ \A tp \in UNION {adopted[c].tps : c \in LiveCs} : ever[tp] = 0..(Cfg.loglen - 1)
+  /\ \A tp \in UNION {adopted[c].tps : c \in LiveCs} : ever[tp] = 0..(Ev.leo[tp] - 1)   \* the log may have grown during the run
   /\ Keep(<<lagUntil, subChg, mid, cgen, expectSync, distd, adopted, gateUp, inRevoke, needRevoke, subs, alive, start, pos, dl, ever,
             fetched, committed>>)
 
 TraceNext ==
   \/ TJoinRequest \/ TJoinReply \/ TSyncRequest \/ TSyncReply \/ TFault \/ TGroupEnv \/ TFailover
   \/ TBeginReassign \/ TRevokeStart \/ TRevokeEnd \/ TAdopt \/ TAssignStart \/ TAssignEnd
-  \/ TOffsetFetchReply \/ TResetTo \/ TTake \/ TCommitReply \/ TStarted \/ TStopCall \/ TStopped \/ TSubChange \/ TEnd \/ TEndDelivery
+  \/ TOffsetFetchReply \/ TResetTo \/ TResetDropped \/ TTake \/ TCommitReply \/ TStarted \/ TStopCall \/ TStopped \/ TSubChange \/ TEnd \/ TEndDelivery
 
 TraceSpec == TraceInit /\ [][TraceNext]_tvars
 
